@@ -34,6 +34,7 @@ def partitions(tier):
             parts.append({"name": "history-%s-%d" % ("known" if known else "unknown", first), "fn": "sym_history", "known": known, "first": first,
                           "steps": 2 if q else 3, "budget": 500 if q else 3000, "cost": 4})
     parts.append({"name": "context", "fn": "sym_context", "budget": 400, "cost": 3})
+    parts.append({"name": "downgrade", "fn": "sym_downgrade", "budget": 400, "cost": 3})
     for v in VERSIONS:
         parts.append({"name": "gate-internal-%s" % v, "fn": "sym_gate", "version": v, "cmd": 3, "budget": 500, "cost": 4})
         parts.append({"name": "gate-stream-%s" % v, "fn": "sym_gate", "version": v, "cmd": 4, "budget": 300, "cost": 2})
@@ -167,6 +168,13 @@ def sym_history(inp, part):
         want_q = 1 if cur_version is None else 0
         if nwrites != want_q:
             raise Violation("history:version-query", "report %r produced %d writes, expected %d" % (text, nwrites, want_q))
+    before = len(tr.writes)
+    tr.lines.append(M.line(77, 1, 1, 0, 2, "x"))
+    kind, val = step()
+    asked = [w for w in tr.writes[before:] if w == "77;255;3;0;19;\n"]
+    want_ask = 1 if cur_proto in ("2.0", "2.1", "2.2") else 0
+    if kind != "err" or type(val).__name__ != "MissingNodeError" or len(asked) != want_ask:
+        raise Violation("history:handler-rules-in-force", "active protocol should be %s: a set from unknown node 77 gave %s and %d presentation request(s)" % (cur_proto, type(val).__name__ if kind == "err" else "a message", len(asked)))
     probe_t = M.INTERNAL_MAX[cur_proto] + 1
     tr.lines.append(M.line(0, 255, 3, 0, probe_t, ""))
     kind, val = step()
@@ -192,6 +200,36 @@ def _rules_match(gw, tr, what):
         refused = kind == "err" and type(val).__name__ == "UnsupportedMessageError"
         if refused != want_refused:
             raise Violation("%s:rules-in-force" % what, "protocol_version=%r: internal type %d %s" % (gw.protocol_version, t, "refused" if refused else "accepted"))
+
+
+def sym_downgrade(inp, part):
+    """A type accepted under a newer protocol is refused again once an older protocol is in force - on the
+    same gateway after a downgrade, and on any other gateway object of the same process."""
+    t = [15, 17, 18, 20, 22, 28, 29, 32, 33][inp.pick("type", 9)]
+    gw, tr = new_gateway(inp, None)
+
+    def accepted(g, trp):
+        trp.lines.append(M.line(0, 255, 3, 0, t, "1"))
+        kind, val = listen_step(g)
+        return not (kind == "err" and type(val).__name__ == "UnsupportedMessageError")
+
+    if accepted(gw, tr):
+        raise Violation("downgrade:accepted-before-any-report", "type %d accepted while no version was reported" % t)
+    tr.lines.append(M.line(0, 255, 3, 0, 2, "2.2.0"))
+    listen_step(gw)
+    if not accepted(gw, tr):
+        raise Violation("downgrade:refused-under-2.2", "type %d refused under 2.2" % t)
+    old = ["1.4.2", "1.5", "2.0.0", "2.1"][inp.pick("older", 4)]
+    tr.lines.append(M.line(0, 255, 3, 0, 2, old))
+    listen_step(gw)
+    want = t <= M.INTERNAL_MAX[M.version_to_proto(old)]
+    if accepted(gw, tr) != want:
+        raise Violation("downgrade:stale-type-gate", "after the report %r type %d is %s" % (old, t, "refused" if want else "still accepted"))
+    check_consistency(gw, "downgrade")
+    gw2, tr2 = new_gateway(inp, None)
+    if accepted(gw2, tr2) != (t <= 14):
+        raise Violation("downgrade:other-gateway", "a fresh gateway (no version reported) %s type %d" % ("refuses" if t <= 14 else "accepts", t))
+    return ["history-ok", t]
 
 
 def sym_context(inp, part):
